@@ -370,7 +370,7 @@ def noninterference(prop, tier, seed, cov, log):
 
 WIRE_PLANS = {
     'C08': {'malformed': (3, 30), 'fields': (3, 40), 'burst': (6, 120), 'abrupt': (3, 30), 'stall-silent': (2, 10),
-            'stall-chatty': (2, 10), 'stall-pose': (2, 10), 'stall-switch': (2, 8), 'idle': (2, 8)},
+            'stall-chatty': (2, 10), 'stall-pose': (2, 10), 'stall-switch': (2, 8), 'idle': (6, 12)},
     # C02, order clause: a recipient catching up on a backlog still gets one sender's relays in order, each once
     'C02': {'order': (2, 12)},
     # C01 / C14: the same for what a member's view is built from, and for custom messages at the protocol's limits
